@@ -45,7 +45,7 @@ def _hv():
 pfx = M.opaque("pfx", [STR], STR, impl=lambda row: _hv()._parse_vlancfg(row)[0], note="_parse_vlancfg(row)[0]: the command words before the VLAN list")
 vset = M.opaque("vset", [STR], VSet, impl=lambda row: _hv()._parse_vlancfg(row)[1], note="_parse_vlancfg(row)[1]: the VLANs of the line (expand_vlandb; bounded only)")
 coll = M.opaque("coll", [VSet], SEQS, impl=lambda s: _hv().collapse_vlandb(s), note="huawei_collapse_vlandb(set): range texts (proved in specs.vlandb to denote exactly the set)")
-chunks = M.opaque("chunks", [SEQS, OptInt], Chunks, impl=lambda items, size: list(_hv()._chunked(items, size)), note="_chunked(items, size): consecutive slices")
+chunks = M.opaque("chunks", [SEQS, OptInt], Chunks, impl=lambda items, size: [items[i:i + size] for i in range(0, len(items), size)], note="_chunked(items, size): consecutive slices")
 
 
 @M.spec
